@@ -106,6 +106,9 @@ def cone(F):
 
 
 # reviewed panic sites on the cone: (function key substring, kind) -> (max count, reason)
+SANITY_REASON = ("sanity check |index mapping| ≠ |derivatives| behind the loop that found every mapped index among the keys: the keys are only ever "
+                 "inserted under the model index of a listed function parameter (R-DERIV-KEY), a second derivative for the same parameter turns the "
+                 "result into Err (R-FN-RESULT-STICKY), and the listed parameters are unique (checked before) — so the two sets coincide")
 TABLE = [
     ("<&util::DiagMatrix<", "assert_failed", 1, "dimension assert of the row scaling: the weight length is validated against the data rows in build() (C18) and the model contract fixes the rows of every weighted matrix"),
     ("FitStatistics<Model>>::confidence_band_radius", "panic_fmt", 1, "documented precondition panic for probabilities outside (0,1), required by C14"),
@@ -162,11 +165,34 @@ def site_kind(t):
     return None
 
 
+def model_builder_scope(F):
+    """the model builder and the function builder with everything local they reach (C15: a defective specification is
+    reported by build() as an error — a panic in a builder method pre-empts that)"""
+    from rules_mbuilder import ADT_MBUILDER, ADT_FNBUILDER
+    seen, work = set(), [b.key for b in F.bodies.values() if b.kind != "Closure" and b.j.get("impl", {}).get("self_adt") in (ADT_MBUILDER, ADT_FNBUILDER)
+                         and b.j.get("impl", {}).get("trait") not in DERIVED]
+    while work:
+        k = work.pop()
+        if k in seen or k not in F.bodies:
+            continue
+        seen.add(k)
+        for bi, t in F.bodies[k].calls():
+            if "fn" in t:
+                key = t["fn"].get("resolved_key") or t["fn"].get("key")
+                if key in F.bodies:
+                    work.append(key)
+        for c in F.closures_of(k):
+            work.append(c.key)
+    return seen
+
+
 def rule_panic_sites(F, ev, R, config, rule="R-PANIC-SITES", scope=None):
     cn, edges = cone(F)
     if scope == "statistics":
         sc = stats_scope(F)
         cn = set(k for k in cn if k in sc)
+    elif scope == "model-builder":
+        cn = model_builder_scope(F)
     counts = {}
     dis = None
     inventory = {"explicit": 0, "sub": 0, "bounds": 0, "addmul": 0, "index": 0}
@@ -185,6 +211,9 @@ def rule_panic_sites(F, ev, R, config, rule="R-PANIC-SITES", scope=None):
                     continue
                 if kind == "index-call":
                     inventory["index"] += 1
+                    if (t["fn"].get("gargs") or [None])[-1] == "std::ops::RangeFull":
+                        R.ok(rule, config, k, "index-call@guarded", "`x[..]`: the full range is in bounds for every length", t.get("span"))
+                        continue
                 else:
                     inventory["explicit"] += 1
             elif t["k"] == "assert":
@@ -228,6 +257,18 @@ def rule_panic_sites(F, ev, R, config, rule="R-PANIC-SITES", scope=None):
                     continue
             else:
                 continue
+            if not guarded and kind == "panic_fmt" and scope == "model-builder":
+                # the function builder's sanity check: reached only when the number of mapped parameter indices differs from the
+                # number of stored derivatives — recognised by its dominating condition, wherever the check has moved or however
+                # its function is called
+                if g is None:
+                    g = Guards(ev, b, env)
+                rels, raw = g.relations_at(bi)
+                for r in rels:
+                    if r[0] == "Ne" and all(x[0] == "call" and x[1].rsplit("::", 1)[-1] == "len" for x in r[1:3]) and \
+                            sum(1 for x in r[1:3] if "HashMap" in x[1]) == 1:
+                        guarded = True
+                        why = SANITY_REASON
             if guarded:
                 R.ok(rule, config, k, "%s@guarded" % kind, why, t.get("span"))
                 continue
@@ -294,7 +335,7 @@ def rule_panic_sites(F, ev, R, config, rule="R-PANIC-SITES", scope=None):
                       "panic-capable site `%s` on the no-panic cone is neither dominated by a guard establishing its condition nor in the reviewed table%s"
                       % (what[:100], " (more sites of this kind than reviewed)" if hit else ""), t.get("span"))
     R.notes.append(inventory)
-    R.floor(rule, config, 50 if scope is None else 8, "pinned tree: 23 explicit + 2 Sub + 56 bounds checks + index calls = 85 (whole cone); the floor is a vacuity guard, not a census")
+    R.floor(rule, config, 50 if scope is None else (1 if scope == "model-builder" else 8), "pinned tree: 23 explicit + 2 Sub + 56 bounds checks + index calls = 85 (whole cone); the floor is a vacuity guard, not a census")
     return inventory
 
 
